@@ -60,6 +60,9 @@ func zcMachine(t *rapid.T, prop string, entry int, raw []byte, bs gen.BitmapSpec
 	// from a worker goroutine is then caught by the byte comparison / the structural check instead of
 	// killing the process (faults are recoverable only on the test goroutine)
 	readOnly := rapid.IntRange(0, 3).Draw(t, "readOnly") != 0
+	if prop != "C08" {
+		readOnly = rapid.Bool().Draw(t, "readOnly2") // the parallel aggregates get a larger share elsewhere
+	}
 	if readOnly {
 		g.ReadOnly()
 	}
@@ -269,9 +272,30 @@ func zcMachine(t *rapid.T, prop string, entry int, raw []byte, bs gen.BitmapSpec
 				z := add(roaring.AddOffset64(x.b, d), x.m.Shift(d, model.Max32))
 				log("#%d=AddOffset64(#%d,%d)", z.id, x.id, d)
 			case 3:
-				y := pick(t, "y")
-				z := add(roaring.FastOr(x.b, y.b, x.b), model.Or(x.m, y.m))
-				log("#%d=FastOr(#%d,#%d,#%d)", z.id, x.id, y.id, x.id)
+				// sequential many-way unions over 2-4 members in a drawn order (the third and later members
+				// are merged by other code than the first two)
+				n := rapid.IntRange(2, 4).Draw(t, "n")
+				args := []*roaring.Bitmap{x.b}
+				um := x.m.Clone()
+				names := fmt.Sprintf("#%d", x.id)
+				for i := 1; i < n; i++ {
+					y := pick(t, "y")
+					if rapid.Bool().Draw(t, "front") {
+						args = append([]*roaring.Bitmap{y.b}, args...)
+						names = fmt.Sprintf("#%d,", y.id) + names
+					} else {
+						args = append(args, y.b)
+						names += fmt.Sprintf(",#%d", y.id)
+					}
+					um = model.Or(um, y.m)
+				}
+				if rapid.Bool().Draw(t, "heap") {
+					z := add(roaring.HeapOr(args...), um)
+					log("#%d=HeapOr(%s)", z.id, names)
+				} else {
+					z := add(roaring.FastOr(args...), um)
+					log("#%d=FastOr(%s)", z.id, names)
+				}
 			default:
 				y := pick(t, "y")
 				z := add(roaring.HeapXor(x.b, y.b), model.Xor(x.m, y.m))
